@@ -34,7 +34,7 @@ pub mod c10;
 pub mod c11;
 pub mod c12;
 pub mod c13;
-stub_property!(c14, C14, "C14");
+pub mod c14;
 pub mod c15;
 pub mod c16;
 pub mod c17;
